@@ -17,6 +17,12 @@ def cum_field(f):
 
 def check(ctx):
     p = ctx.prog
+    # no state survives from one call to the next in a function-local static
+    no_static_state(ctx, 'state.no_static_locals')
+    # all arithmetic behind this property happens in the numeric type T of the instantiation
+    single_precision(ctx, 'prec.single_type', ['hep::discrete_distribution::', 'hep::multi_channel_iteration'], 1)
+    # no constructor of the classes this property computes with leaves a member indeterminate
+    members_initialised(ctx, 'init.members', ['hep::discrete_distribution'], 1)
     ctx.assume('std::upper_bound / std::lower_bound / std::partial_sum semantics as in the standard; '
                'generate_canonical in [0,1)')
     # ---------------------------------------------------------------- R1 / R3 selection
@@ -117,7 +123,10 @@ def check(ctx):
             en = e['args'][3]
             ok = isinstance(en, tuple) and en[0] == 'vcomp' and en[1] == T.vempty() and \
                 en[3] == ZERO and en[4] == T.size(cw) and en[6] == en[2] and \
-                same_cond(en[5], ('!=', sel(cw, en[2]), ZERO))
+                (same_cond(en[5], ('!=', sel(cw, en[2]), ZERO)) or same_cond(en[5], ('>', sel(cw, en[2]), ZERO)))
+            if ok and not same_cond(en[5], ('!=', sel(cw, en[2]), ZERO)):
+                ctx.assume('channel weights are non-negative numbers (a probability vector, C08): for them '
+                           '`w > 0` selects the same channels as `w != 0`')
             if ok:
                 ctx.holds('R4.enabled_channels', where, 'enabled_channels = {i : channel_weights[i] != 0} '
                           'in increasing order, complete')
